@@ -4,8 +4,12 @@ determined by construction; observation values are computed from the true lattic
 coordinates (textbook formulas, trusted). Truth law: adjusted = generating coordinates,
 residuals 0 - for every axes/angle convention, circle orientation, with approximate
 coordinates given, omitted (acord) or perturbed, with/without instrument heights, with
-further consistent observations added, for all four algorithms."""
-import sessions
+further consistent observations added, for all four algorithms.
+AcordModel.tla: networks built by TLC from the constructions of the documented strategy for approximate
+coordinates (polar by direction or angle, intersection, resection by directions or angles, trilateration,
+two distances with a bearing, inserted traverse, in every order over 4-5 points, plus further observations); the model's closure says which points must be positioned; they are
+written without approximate coordinates, under names and document orders that hide the construction order."""
+import sessions, acordnets
 LEVEL = "exploration"
 NOISE = "{0}"
 
@@ -29,13 +33,31 @@ def run(ctx):
     st2, _, _ = sessions.run_sessions(ctx, pn, truth=False, laws=True, sigprefix="noisy_")
     for k in ("runs", "truth_checks", "adjusted"):
         st1[k] += st2[k]
+    # approximate coordinates: every construction history of AcordModel.tla
+    K1, K2 = '{"polar", "inter", "resect", "trilat", "trav"}', '{"polar", "polarA", "resectA", "ddb"}'
+    KALL = '{"polar", "polarA", "inter", "resect", "resectA", "trilat", "ddb", "trav"}'
+    if q:
+        ra, ca = acordnets.generate(ctx, "c06d", {"NP": 5, "MaxExtra": 0, "Kinds": K1, "Keep": 211, "Seed": ctx.seed})
+        ra2, ca2 = acordnets.generate(ctx, "c06f", {"NP": 5, "MaxExtra": 0, "Kinds": K2, "Keep": 307, "Seed": ctx.seed})
+        ca, ra.distinct = ca + ca2, ra.distinct + ra2.distinct
+        rb, cb = acordnets.generate(ctx, "c06e", {"NP": 4, "MaxExtra": 1, "Kinds": KALL, "Keep": 97, "Seed": ctx.seed})
+    else:
+        ra, ca = acordnets.generate(ctx, "c06d", {"NP": 5, "MaxExtra": 0, "Kinds": KALL, "Keep": 53, "Seed": ctx.seed})
+        rb, cb = acordnets.generate(ctx, "c06e", {"NP": 4, "MaxExtra": 2, "Kinds": KALL, "Keep": 211, "Seed": ctx.seed})
+    sta = acordnets.run(ctx, ca, algs=(None,) if q else (None, "gso", "svd", "cholesky"))
+    stb = acordnets.run(ctx, cb, algs=(None, "gso") if q else (None, "gso", "svd", "cholesky"))
+    ctx.note("AcordModel: %d construction histories over 5 points (%d states), %d over 4 points with further observations (%d states); %d runs, %d points positioned"
+             % (len(ca), ra.distinct, len(cb), rb.distinct, sta["runs"] + stb["runs"], sta["points_checked"] + stb["points_checked"]))
     if ed:
         ctx.sample({"net": {k: ed[0]["net"][k] for k in ("t", "axes", "lefthanded", "orient")}, "edit": ed[0]["edits"][0]["e"],
                     "obs": ed[0]["net"]["obs"][:4]})
     ctx.assume("observation values are computed from the true coordinates by textbook formulas in tools/session.py (trusted, 1e-10)")
     ctx.assume("tolerance 2e-6 m / 2e-7 gon on printed results")
     n = st0["truth_checks"] + st1["truth_checks"]
-    return {"evaluations": st0["runs"] + st1["runs"], "distinct_nontrivial": len(base) + len(ed) + len(pn),
+    return {"evaluations": st0["runs"] + st1["runs"] + sta["runs"] + stb["runs"], "distinct_nontrivial": len(base) + len(ed) + len(pn) + len(ca) + len(cb),
+            "acord_model": {"histories_5pts": len(ca), "histories_4pts_extra": len(cb), "runs": sta["runs"] + stb["runs"], "adjusted": sta["adjusted"] + stb["adjusted"],
+                            "points_positioned": sta["points_checked"] + stb["points_checked"], "by_construction": sta["by_construction"],
+                            "tlc_invariants": "Determined (constructed points are in the closure), Monotone (added observations never shrink the closure)"},
             "rule": "final states of SurveySession.tla with noise = 0 (thinned by KeepNet/KeepEdit/Seed); every network is distinct in template, "
                     "optional observations, axes, angle sense or circle orientation; non-trivial = all (each has >= 2 unknown points)",
-            "tlc_states": r0.distinct + r1.distinct + r2.distinct, "law_checks": st1["law_checks"] + st2["law_checks"], "truth_checks": n, "adjusted": st0["adjusted"] + st1["adjusted"], "exhaustive": False}
+            "tlc_states": r0.distinct + r1.distinct + r2.distinct + ra.distinct + rb.distinct, "law_checks": st1["law_checks"] + st2["law_checks"], "truth_checks": n, "adjusted": st0["adjusted"] + st1["adjusted"], "exhaustive": False}
